@@ -1,4 +1,166 @@
-import Cutplace.Model.Checks
+import Cutplace.Proofs.CheckLemmas
+/-
+C05  Uniqueness and distinct-count checks are decided over the whole data set.
+-/
 namespace Cutplace.Props
-theorem C05_placeholder : True := trivial
+open Cutplace
+
+/-- **IsUnique, iff and see-also.** For every sequence `pre` of rows that reached the check in this
+data set and every further row `x`: `x` is rejected iff some earlier row that the check let pass has
+the same values in all key fields, and the error refers back to the line of the *first* such row —
+`lookupKey` returns the line of the first entry with an equal key. Rows the check itself rejected
+never register a key. -/
+theorem C05_unique_verdict (K : List Nat) (pre : List (Row × Nat)) (row : Row) (line : Nat) :
+    let vs := (seqVerdicts (isUniqueCheck K) (isUniqueCheck K).reset (pre ++ [(row, line)])).1
+    let vpre := (seqVerdicts (isUniqueCheck K) (isUniqueCheck K).reset pre).1
+    vs = vpre ++ [(lookupKey (keyOf K row) (passedKeys K pre vpre)).map (fun l => ⟨some l⟩)] := by
+  simp only [seqVerdicts_append]
+  have hs := unique_state K [] pre
+  simp only [List.nil_append] at hs
+  have hreset : (isUniqueCheck K).reset = .unique [] := rfl
+  rw [hreset, hs, seqVerdicts_cons]
+  cases hl : lookupKey (keyOf K row) (passedKeys K pre (seqVerdicts (isUniqueCheck K) (.unique []) pre).1) with
+  | some first => rw [unique_row_veto K _ row line first hl]; simp [seqVerdicts]
+  | none => rw [unique_row_pass K _ row line hl]; simp [seqVerdicts]
+
+/-- what `lookupKey` means: the line of the first entry with that key -/
+theorem C05_lookupKey_spec (k : List Str) (l : List (List Str × Nat)) :
+    (lookupKey k l = none ↔ ∀ e ∈ l, e.1 ≠ k) ∧
+    (∀ line, lookupKey k l = some line ↔
+      ∃ a b, l = a ++ (k, line) :: b ∧ ∀ e ∈ a, e.1 ≠ k) := by
+  induction l with
+  | nil => simp [lookupKey]
+  | cons e rest ih =>
+    obtain ⟨k', l'⟩ := e
+    simp only [lookupKey]
+    by_cases hk : k' = k
+    · subst hk
+      simp only [beq_self_eq_true, if_true, reduceCtorEq, List.mem_cons, ne_eq, forall_eq_or_imp,
+        not_true_eq_false, false_and, Option.some.injEq]
+      refine ⟨by simp, ?_⟩
+      intro line
+      constructor
+      · intro h; subst h; exact ⟨[], rest, rfl, by simp⟩
+      · rintro ⟨a, b, hab, hne⟩
+        cases a with
+        | nil => simp at hab; exact hab.1
+        | cons a0 as =>
+          simp only [List.cons_append, List.cons.injEq] at hab
+          have := hne a0 (by simp)
+          rw [← hab.1] at this
+          simp at this
+    · have hne : (k' == k) = false := by simpa using hk
+      simp only [hne, Bool.false_eq_true, if_false, List.mem_cons, ne_eq, forall_eq_or_imp]
+      refine ⟨by simp [hk, ih.1], ?_⟩
+      intro line
+      rw [ih.2 line]
+      constructor
+      · rintro ⟨a, b, hab, hne'⟩
+        exact ⟨(k', l') :: a, b, by simp [hab], by
+          intro e he; rcases List.mem_cons.mp he with rfl | he
+          · exact hk
+          · exact hne' e he⟩
+      · rintro ⟨a, b, hab, hne'⟩
+        cases a with
+        | nil => simp at hab; exact absurd hab.1.1 hk
+        | cons a0 as =>
+          simp only [List.cons_append, List.cons.injEq] at hab
+          exact ⟨as, b, hab.2, fun e he => hne' e (by simp [he])⟩
+
+/-- A vetoing `IsUniqueCheck` leaves its state unchanged: a rejected row never registers a key. -/
+theorem C05_rejected_row_not_registered (K : List Nat) (seen : List (List Str × Nat)) (row : Row) (line : Nat)
+    (v : Veto) (h : ((isUniqueCheck K).row (.unique seen) row line).2 = some v) :
+    ((isUniqueCheck K).row (.unique seen) row line).1 = .unique seen := by
+  cases hl : lookupKey (keyOf K row) seen with
+  | some first => rw [unique_row_veto K seen row line first hl]
+  | none => rw [unique_row_pass K seen row line hl] at h; simp at h
+
+/-- **DistinctCount.** After any sequence of rows that reached the check, its state lists each value
+of the counted field exactly once, so the end-of-data verdict compares the number of distinct values
+among those rows with the threshold — for each of the six operators and every threshold. -/
+theorem C05_distinct (col : Nat) (cmp : Cmp) (n : Int) (rs : List (Row × Nat)) :
+    ∃ vals, (seqVerdicts (distinctCountCheck col cmp n) (distinctCountCheck col cmp n).reset rs).2 = .distinct vals ∧
+      vals.Nodup ∧ (∀ v, v ∈ vals ↔ v ∈ rs.map (fun r => r.1.getD col [])) ∧
+      (distinctCountCheck col cmp n).atEnd (.distinct vals) = cmp.eval vals.length n ∧
+      (seqVerdicts (distinctCountCheck col cmp n) (distinctCountCheck col cmp n).reset rs).1 = rs.map (fun _ => none) := by
+  have key : ∀ (vals0 : List Str) (rs : List (Row × Nat)), vals0.Nodup →
+      ∃ vals, (seqVerdicts (distinctCountCheck col cmp n) (.distinct vals0) rs).2 = .distinct vals ∧
+        vals.Nodup ∧ (∀ v, v ∈ vals ↔ v ∈ vals0 ∨ v ∈ rs.map (fun r => r.1.getD col [])) ∧
+        (seqVerdicts (distinctCountCheck col cmp n) (.distinct vals0) rs).1 = rs.map (fun _ => none) := by
+    intro vals0 rs
+    induction rs generalizing vals0 with
+    | nil => intro h; exact ⟨vals0, rfl, h, by simp, rfl⟩
+    | cons x xs ih =>
+      intro h
+      obtain ⟨row, line⟩ := x
+      rw [seqVerdicts_cons, distinct_row]
+      by_cases hc : vals0.contains (row.getD col []) = true
+      · obtain ⟨vals, h1, h2, h3, h4⟩ := ih vals0 h
+        rw [if_pos hc]
+        refine ⟨vals, h1, h2, ?_, by simp only [List.map_cons]; rw [h4]⟩
+        intro v; rw [h3 v]
+        simp only [List.map_cons, List.mem_cons]
+        have : row.getD col [] ∈ vals0 := by simpa using hc
+        constructor
+        · rintro (h | h); exact Or.inl h; exact Or.inr (Or.inr h)
+        · rintro (h | h | h)
+          · exact Or.inl h
+          · subst h; exact Or.inl this
+          · exact Or.inr h
+      · have hnot : row.getD col [] ∉ vals0 := by simpa using hc
+        have hnd : (vals0 ++ [row.getD col []]).Nodup := by
+          rw [List.nodup_append]
+          refine ⟨h, by simp, ?_⟩
+          intro a ha b hb
+          simp only [List.mem_singleton] at hb
+          subst hb
+          intro hab; subst hab; exact hnot ha
+        obtain ⟨vals, h1, h2, h3, h4⟩ := ih _ hnd
+        rw [if_neg hc]
+        refine ⟨vals, h1, h2, ?_, by simp only [List.map_cons]; rw [h4]⟩
+        intro v; rw [h3 v]
+        simp only [List.mem_append, List.map_cons, List.mem_cons, List.not_mem_nil, or_false]
+        constructor
+        · rintro ((h | h) | h)
+          · exact Or.inl h
+          · exact Or.inr (Or.inl h)
+          · exact Or.inr (Or.inr h)
+        · rintro (h | h | h)
+          · exact Or.inl (Or.inl h)
+          · exact Or.inl (Or.inr h)
+          · exact Or.inr h
+  obtain ⟨vals, h1, h2, h3, h4⟩ := key [] rs (by simp)
+  exact ⟨vals, h1, h2, by simpa using h3, rfl, h4⟩
+
+/-- A row rejected by a field never reaches any check: check states are untouched (see also
+`C04_check_error_after_fields`). -/
+theorem C05_field_rejected_rows_invisible {σ} (cols : List Column) (checks : List (Check σ)) (sts : List σ)
+    (row : Row) (line j : Nat) (h : (validateRow cols checks sts row line).2.1 = some (.field j)) :
+    (validateRow cols checks sts row line).1 = sts := by
+  unfold validateRow at h ⊢
+  by_cases hlen : row.length = cols.length
+  · simp only [hlen, ne_eq, not_true_eq_false, if_false] at h ⊢
+    generalize validateCells cols row 0 = vc at h ⊢
+    obtain ⟨culprit, log⟩ := vc
+    cases culprit with
+    | some k => rfl
+    | none =>
+      simp only at h
+      cases hr : (runChecks checks sts row line 0).2.1 <;> simp [hr] at h
+  · simp [hlen]
+
+/-- The general statement ("an earlier *accepted* row") fails when a later-declared check can reject
+a row after IsUnique registered its key (known finding): row 0 passes IsUnique, is vetoed by the
+second check, and row 1 is then reported as a duplicate of it. -/
+theorem C05_unique_accepted_counterexample :
+    let col : Column := ⟨fun v => .inr v, fun _ => true⟩
+    let checks := [isUniqueCheck [0], scriptedCheck 0 ['1'] false]
+    let r := readRows ⟨.yield, 0, none⟩ [col] checks false [[['1']], [['1']]] []
+    r.events = [.err 0 (.check 1 none), .err 1 (.check 0 (some 0))] := by decide
+
+/-- non-vacuity for `C05_unique_verdict`: keys a, b, a -/
+example :
+    (seqVerdicts (isUniqueCheck [0]) (isUniqueCheck [0]).reset [([['a']], 0), ([['b']], 1), ([['a']], 2)]).1
+      = [none, none, some ⟨some 0⟩] := by decide
+
 end Cutplace.Props
